@@ -14,7 +14,8 @@ CHECKS = {
  "C15": dict(category="proof",
    text=("Theorems on the model of chmd.c's name comparison: a name compares equal to itself and ASCII letter case is ignored. The binary search over quick-reference entries, the index descent and the chunk cache are "
          "modelled and agree with the implementation on every lookup of generated directories; the implementation is judged against the listing: every listed name and its case variants are found with the listing's "
-         "section/offset/length, absent neighbours give OK with a null section, in shuffled order on open() and fast_open() handles."),
+         "section/offset/length, absent neighbours give OK with a null section, in shuffled order on open() and fast_open() handles."
+         " Search correctness is now a theorem for index-free directories: C15_fastfind_roundtrip - on every directory the specification writer lays out (PMGL chain, quick-reference area not consulted) fast_find returns for each listed file its section/offset/length and not-found for every name compare() tells apart from all entries, from any cache state."),
    note=PROOF_NOTE + " towlower is the C locale's in harness and model.", technique="Lean 4 theorems on compare + exhaustive lookup oracle with model agreement"),
  "C16": dict(category="proof",
    text=("Theorems on a byte-exact model of create_output_name (validated on 5,000+/166,000+ names per run against the real function): for every name, flag combination and -d prefix the archive-determined part of the output "
@@ -35,9 +36,9 @@ CHECKS = {
          "on malformed, shipped and pathological inputs; that found the cyclic-CHM hang repaired by f3ee904."),
    note=PROOF_NOTE + " Wall-clock time is not covered; the budget constants are calibrated, not derived.", technique="Lean 4 termination measures + instrumented edge budget and watchdog on the implementation"),
  "C09": dict(category="proof",
-   text=("Theorems on effect models of the SZDD and KWAJ decompressors over an instrumented mspack_system (ledger of live allocations and handles, fault plan, misuse monitor): for every client program (create; any list of decompress / open + extracts + close; destroy), every file content and every fault plan (any set of failing alloc/open/read/write/seek calls) the ledger after the program equals the ledger before it and no misuse is recorded "
-         "(C09_szdd_*, C09_kwaj_*; KWAJ's LZH and MSZIP decoder bodies enter through a frame law: they only read and write on the two handles they get). The effect models are replayed against the implementation on every szdd/kwaj run of the fault sweep (mspack-driver --sys). "
-         "CAB, CHM and OAB: every single failure of alloc/open/read/write/seek (sampled in the quick tier, exhaustive on small directed scenarios; every call index in the thorough tier) in complete API sessions over well-formed and malformed archives: "
+   text=("Theorems on effect models of the SZDD, KWAJ and OAB decompressors over an instrumented mspack_system (ledger of live allocations and handles, fault plan, misuse monitor): for every client program (create; any list of decompress / open + extracts + close; destroy), every file content and every fault plan (any set of failing alloc/open/read/write/seek calls) the ledger after the program equals the ledger before it and no misuse is recorded "
+         "(C09_szdd_*, C09_kwaj_*, C09_oab_*; KWAJ's LZH and MSZIP and OAB's LZX decoder bodies enter through a frame law: they only read and write on the two handles they get). The effect models are replayed against the implementation on every szdd/kwaj/oab run of the fault sweep (mspack-driver --sys). "
+         "CAB and CHM: every single failure of alloc/open/read/write/seek (sampled in the quick tier, exhaustive on small directed scenarios; every call index in the thorough tier) in complete API sessions over well-formed and malformed archives: "
          "the instrumented system's ledger must be empty after close+destroy and no object may be released twice or used after release."),
    note=PROOF_NOTE + " The effect models are hand-written and validated by replaying every szdd/kwaj fault run on them; KWAJ's LZH/MSZIP decoder bodies are a hypothesis (frame law); for CAB/CHM/OAB the harness's instrumented mspack_system (ledger + monitor) is the reference and the enumeration covers the sampled scenarios only.",
    technique="Lean 4 theorems on effect models over an instrumented system (invariants Frame/Opened, induction over client programs) + --sys replay + single-fault enumeration with allocation/handle ledger"),
@@ -54,7 +55,8 @@ CHECKS = {
  "C13": dict(category="proof",
    text=("Theorems on the heap model of cabd_merge: every refusal leaves the heap exactly as it was, and NULL, identical, already-joined, circular and mismatched-split-folder joins are refused with the documented codes. "
          "Order-independence of successful joins is validated: every order of the joins x append/prepend on generated split sets (exhaustive up to 4 parts), listings of every part compared with the model after every call and with the plan at the end, "
-         "members of spanning folders extracted; refused joins checked for unchanged listings and clean separate close."),
+         "members of spanning folders extracted; refused joins checked for unchanged listings and clean separate close."
+         " Order independence is now a theorem on the merge model: C13_join_order_independent - for every well-formed set of any number of parts, every sequence of adjacent joins (append or prepend) returns OK at every step and leaves in every part exactly the expected fused folder and file lists."),
    note=PROOF_NOTE, technique="Lean 4 theorems on the merge model + exhaustive join-order enumeration with model agreement"),
  "C20": dict(category="proof",
    text=("Theorem over the call-site inventory regenerated from today's sources: the library's eighteen open() calls pass caller-supplied or stored archive names with fixed modes (READ for archives/patches/bases, WRITE for outputs). "
